@@ -1,9 +1,21 @@
 """Engine tie (T2): the Lean model of the regex engine (Rx.run / search / findAll) against the real `regex`
 module on random ASTs over the operator set JASM emits, including nested nullable loops, captures and
-back-references.  The AST is sent to the driver, which renders it; the real engine runs the rendered text."""
+back-references.  The AST is sent to the driver, which renders it; the real engine runs the rendered text.
+
+The generated class follows two invariants of compiled rules: capture groups never match the empty text, and
+one-member negated classes occur only under a bounded quantifier.  Outside them the third-party engine is known to
+deviate from plain backtracking semantics (capture-sensitive loop guards when back-references are present; a
+set-alternation optimisation bug), which no edit to JASM can reach.
+
+A disagreement here says that the *model of the third-party engine* is wrong on some regex; it cannot be caused by
+an edit to /repo, so it is a harness error (exit 2), never a violation."""
 import regex
 
 ALPHA = "ab0|,:"
+
+
+class EngineModelError(Exception):
+    pass
 
 
 def gen_atom(g, depth, st):
@@ -15,13 +27,27 @@ def gen_atom(g, depth, st):
         return {"t": "any"}
     if k < 50:
         items = g.r.sample(["a", "b", "0", "|", ",", ":", "\\d"], g.int(1, 3))
-        return {"t": "cls", "neg": g.chance(0.5), "items": items}
+        neg = g.chance(0.5)
+        c = {"t": "cls", "neg": neg, "items": items}
+        if neg and len(items) == 1:
+            # JASM emits one-member negated classes only under a bounded quantifier (`[^|]{0,1000}`); a bare
+            # alternation of such classes hits an optimisation bug of the third-party engine
+            # (regex 2.5.140: `[^0]|[^a]` does not match `a`), which is outside the emitted class
+            lo = g.int(0, 2)
+            return {"t": "rep", "r": c, "lo": lo, "hi": lo + g.int(1, 2)}
+        return c
     if k < 85:
         return {"t": "grp", "r": gen_top(g, depth - 1, st)}
     if k < 93:
+        # capture groups of compiled rules never match the empty text (`([^,|]+),`, a whole instruction body, one
+        # register letter): the group starts with something that consumes a character
         st["caps"] += 1
         n = st["caps"]
-        return {"t": "cap", "n": n, "r": gen_top(g, depth - 1, st)}
+        c = g.pick(ALPHA)
+        head = {"t": "esc", "c": c} if c == "|" else {"t": "chr", "c": c}
+        if g.chance(0.5):
+            head = {"t": "plus", "r": {"t": "cls", "neg": True, "items": [",", "|"]}}
+        return {"t": "cap", "n": n, "r": {"t": "seq", "a": head, "b": gen_seq(g, depth - 1, st)}}
     if st["caps"] > 0:
         return {"t": "bref", "n": g.int(1, st["caps"])}
     return {"t": "chr", "c": g.pick(ALPHA.replace("|", "a"))}
@@ -99,6 +125,6 @@ def run(ctx, n, tie="T2-engine"):
         if any(real_all):
             rep.dist["engine:nonempty-match"] += 1
         if real_all != m["all"] or real_first != m["first"]:
-            rep.disagree(tie, {"regex": m["render"], "text": text}, {"all": real_all, "first": real_first},
-                         {"all": m["all"], "first": m["first"]})
+            raise EngineModelError("engine model differs from the regex module on %r / %r: real %r, model %r"
+                                   % (m["render"], text, (real_all, real_first), (m["all"], m["first"])))
     return usable
